@@ -355,6 +355,93 @@ def r5_no_partial_objects(run):
               "root tag", fi.loc())
 
 
+INCREMENTAL = {"iterparse", "XMLPullParser", "feed", "read_events"}
+
+
+def incremental_parses(tree):
+    """[(call, enclosing for-loop or None, abandoning statements)] for every
+    incremental XML parse in a module tree: a loop over iterparse()/
+    read_events() that can be left by break/return before the input is
+    exhausted never sees the parser's verdict on the rest of the document."""
+    out = []
+    parents = {}
+    for n in ast.walk(tree):
+        for c in ast.iter_child_nodes(n):
+            parents[c] = n
+    for c in ast.walk(tree):
+        if not (isinstance(c, ast.Call) and call_name(c) in INCREMENTAL):
+            continue
+        if call_name(c) == "feed" and "pars" not in unparse(c.func).lower():
+            continue
+        loop = None
+        p = c
+        while p in parents:
+            p = parents[p]
+            if isinstance(p, (ast.For, ast.AsyncFor)) and any(
+                    x is c for x in ast.walk(p.iter)):
+                loop = p
+                break
+            if isinstance(p, (ast.FunctionDef, ast.AsyncFunctionDef)):
+                break
+        exits = []
+        if loop is not None:
+            stack = list(loop.body)
+            while stack:
+                st = stack.pop()
+                if isinstance(st, (ast.Break, ast.Return)):
+                    exits.append(st)
+                if isinstance(st, (ast.FunctionDef, ast.ClassDef, ast.Lambda)):
+                    continue
+                if isinstance(st, (ast.For, ast.While)):
+                    # a break there leaves the inner loop only
+                    stack.extend(x for x in ast.walk(st)
+                                 if isinstance(x, ast.Return))
+                    continue
+                stack.extend(ast.iter_child_nodes(st))
+        out.append((c, loop, exits))
+    return out
+
+
+def r6_whole_document(run):
+    run.rule("R6", "inbound XML is parsed to the end of the input before "
+             "anything is returned: no incremental parse (iterparse / pull "
+             "parser) whose consuming loop can be abandoned early, so "
+             "truncated or trailing malformed input always reaches the "
+             "parser's error")
+    m = run.model
+    n = 0
+    for mi in sorted(m.modules.values(), key=lambda x: x.name):
+        if not any(w in mi.source for w in ("iterparse", "PullParser",
+                                            "read_events", ".feed(")):
+            continue
+        for c, loop, exits in incremental_parses(mi.tree):
+            n += 1
+            f = m.enclosing_function(mi, c)
+            where = "%s:%d" % (mi.relpath, c.lineno)
+            key = "%s::%s" % (f.qual if f else mi.name, norm_text(c)[:60])
+            if loop is None:
+                run.violated("R6", key, "incremental XML parse whose events are "
+                             "not consumed by an enclosing for loop: nothing "
+                             "shows the document is read to its end", where)
+            else:
+                run.check(not exits, "R6", key,
+                          "the event loop runs to exhaustion",
+                          "the loop over the incremental parser is left by %s "
+                          "at line(s) %s before the input is exhausted: "
+                          "malformed content after that point is accepted" % (
+                              sorted({type(x).__name__.lower() for x in exits}),
+                              sorted(x.lineno for x in exits)), where)
+    run.count("R6.incremental-parses", n)
+    ctl = ast.parse("def f(t):\n for ev, el in ET.iterparse(t):\n  if el.tag"
+                    " == 'Body':\n   break\n")
+    hits = [x for x in incremental_parses(ctl) if x[2]]
+    run.require(len(hits) == 1, "positive control: early-exit iterparse loop "
+                "not recognised")
+    run.holds("R6", "whole-document", "%d incremental parses in the package; "
+              "all inbound parsing uses whole-document fromstring() "
+              "(positive control recognised)" % n, "")
+
+
 def check(run):
     run.explanation = (
         "C11: whole-package inventory of every call whose callee resolves "
@@ -372,6 +459,7 @@ def check(run):
     r1_parser_inventory(run)
     r4_single_funnel(run)
     r5_no_partial_objects(run)
+    r6_whole_document(run)
     if run.tier == "thorough":
         root = run.model.root
         for sub in ("src/saml2test", "src/utility", "tools", "example"):
